@@ -11,7 +11,7 @@ SPEC = dict(
                 "stored has a published or given header, window / Q4 policy, failed operations change nothing, every obtained in-window "
                 "block ends up stored and published; on one chain every successfully given header is stored with its DAH. The model is "
                 "re-validated on every run against the real Listener + MultiSource + Exchange + BlockFetcher + ShareAvailability + store on "
-                "~115 histories (~1800 operations) with real signed blocks and squares."),
+                "~200 histories (~4000 operations) with real signed blocks and squares."),
     rule=("a history = 3..8 heights with their own squares (random transactions, real PayForBlobs transactions, empty blocks), block times "
           "a minute old or 9 days old, 8% inconsistent data hashes, 5% unbuildable squares; 1..4 endpoints announcing with gaps, immediate "
           "duplicates, replays of old heights, shuffled order, merged at random; per announcement: fetch failure 15%, status failure 10%, "
